@@ -125,10 +125,15 @@ def pick_desc(rng, ctx, allow_bad=True, big_ok=False):
             name, e = pp[rng.randrange(len(pp))]
             return "paper:" + name, e
     if r < 0.35:
-        prm = pools.gen_params(rng, "small" if (big_ok and rng.random() < 0.3) else "tiny")
+        big = big_ok and rng.random() < 0.3
+        prm = pools.gen_params(rng, "small" if big else "tiny")
+        if big and rng.random() < 0.6:
+            prm["width"], prm["length"] = rng.choice([(4, 5), (5, 4), (5, 5), (3, 7)])      # game_c above 200 states
+            for k_ in ("rb", "lb", "tb"):
+                prm[k_] = min(0.9, max(0.1, prm[k_]))                                   # converge quickly
         bg = board_games(ctx, prm)
         if bg:
-            k = rng.choice(sorted(bg))
+            k = "game_c" if (big and rng.random() < 0.6 and "game_c" in bg) else rng.choice(sorted(bg))
             return "board:" + k, bg[k]
     if allow_bad and r < 0.43:
         return "bad", enc(pools.bad_game(rng))
